@@ -34,9 +34,11 @@ if [ -n "$TESTS" ]; then
     else echo "TESTS-PASS $NAME module=$m"; fi
   done
 fi
-REPO_DIR=$WT OUT_DIR=$OUT /verif/scripts/build.sh race vcheck >"$VD/build.log" 2>&1 || { echo "BUILD-FAIL $NAME"; tail -5 "$VD/build.log"; exit 3; }
 for P in ${PROPS//,/ }; do
-  VERIF_DIR=$VD "$OUT/vcheck" run "$P" --tier "$TIER" > "$VD/$P.out" 2>&1; rc=$?
+  # per-property binary (the all-in-one vcheck links every property package, and other packages may be mid-edit)
+  CMD=vcheck-$(echo $P | tr A-Z a-z); [ "$CMD" = vcheck-c13 ] && CMD=vcheck-c12
+  REPO_DIR=$WT OUT_DIR=$OUT /verif/scripts/build.sh race $CMD >"$VD/build.log" 2>&1 || { echo "BUILD-FAIL $NAME ($CMD)"; tail -5 "$VD/build.log"; continue; }
+  VERIF_DIR=$VD "$OUT/$CMD" run "$P" --tier "$TIER" > "$VD/$P.out" 2>&1; rc=$?
   nv=$(grep -c "^VIOLATION" "$VD/$P.out")
   kinds=$(grep "^ *[0-9]* × " "$VD/$P.out" | sed 's/^ *//' | cut -c1-160 | head -4 | tr '\n' ';')
   case $rc in
